@@ -386,7 +386,9 @@ class Check:
             if cls and cls == k["class"]:
                 self.known_hits[cls] = self.known_hits.get(cls, 0) + 1
                 return
-        if len(self.violations) < 50:
+        # (the two kinds are capped separately: correspondence-only disagreements must never crowd out failing inputs)
+        same = sum(1 for w in self.violations if (w.get("kind") == "correspondence-only") == (v.get("kind") == "correspondence-only"))
+        if same < 50:
             self.violations.append(v)
         else:
             self.extra["violations_not_listed"] = self.extra.get("violations_not_listed", 0) + 1
